@@ -32,8 +32,15 @@ class SMGen(Gen):
         if len(block.crossings) != 1:
             _cexit(f"Multiple-crossing blocks are not supported by SMGen.")
 
+        if any(count != 1 for count in block.crossing_sustain_counts):
+            _cexit("Nested blocks are not supported by SMGen.")
+        if (block.crossing_weight() == 1
+            and block.trials_per_sample() != block.crossing_size() + block.preamble_size()):
+            _cexit("Repeated crossings are not supported by SMGen.")
+
         for c in block.constraints:
             if (isinstance(c, AtMostKInARow) or isinstance(c, AtLeastKInARow) or isinstance(c, ExactlyK)
+                or isinstance(c, ExactlyKInARow) or isinstance(c, Sequential) or isinstance(c, LatinSquare)
                 or isinstance(c, Exclude) or isinstance(c, Pin)):
                 _cexit(f"{type(c).__name__} constraints are not supported by SMGen.")
 
